@@ -1,0 +1,6 @@
+//go:build verif
+
+package ruleguard
+
+// VerifTruncateText exposes truncateText to the verification harness.
+func VerifTruncateText(s []byte, maxLen int) []byte { return truncateText(s, maxLen) }
